@@ -3,7 +3,7 @@ import json
 import os
 import re
 
-from vcheck import Inconclusive, write_ndjson
+from vcheck import Inconclusive, write_ndjson, parse_tla_value
 
 PKG = "internal/zzverif/xdsc"
 NAMES = ["a", "b", "c"]
@@ -16,9 +16,9 @@ def dev(what):
 
 def label(lbl):
     """'ServeT(1, "valid")' -> ('Serve', ['1', 'valid'])"""
-    m = re.match(r'(\w+)(?:\((.*)\))?', lbl)
+    m = re.match(r'(\w+)(?:\((.*)\))?\s*$', lbl, re.S)
     name, args = m.group(1), (m.group(2) or "")
-    args = [a.strip().strip('"') for a in args.split(",")] if args else []
+    args = parse_tla_value("<<" + args + ">>") if args else []
     return (name[:-1] if name.endswith("T") else name), args
 
 
@@ -30,14 +30,17 @@ def clean(behs, ns=1, igd=False):
     """Drop the model-internal (None) steps, drop empty and duplicate behaviours, wrap for the driver."""
     out, seen = [], set()
     for b in behs:
-        steps = [s for s in b if s is not None]
+        steps = [dict(s) for s in b if s is not None]
         if not steps:
             continue
-        k = json.dumps(steps, sort_keys=True)
+        for s in steps:
+            if "_igd" in s:
+                igd = s.pop("_igd")
+        k = json.dumps([igd, steps], sort_keys=True)
         if k in seen:
             continue
         seen.add(k)
-        out.append({"ns": ns, "igd": igd, "steps": steps})
+        out.append({"ns": ns, "igd": bool(igd), "steps": steps})
     return out
 
 
